@@ -79,15 +79,14 @@ def k1_shapes(tier):
             ([{'cb': 'RS'}, {'cb': 'F', 'txs': [{'ins': 1, 'outs': 'OA'}]}], 1,
              [{'cb': 'O', 'txs': [{'ins': 1, 'outs': 'Z'}]}]),
         ]
-    for blocks, depth, new in base:
+    for li, (blocks, depth, new) in enumerate(base):
         n = len(blocks)
         scheds = list(itertools.product('nhf', repeat=n - 1))
         if tier == 'quick':
             scheds = scheds if n == 2 else [s for s in scheds if 'h' in s][:3]
-        elif n > 3:
-            scheds = scheds[::9]
-        elif n == 3:
-            scheds = scheds[::2]          # sized: the full product ran for more than an hour on 10 cores
+        elif li >= 3:
+            # thorough-only scenarios: two schedules each (the full product ran for more than an hour on 10 cores)
+            scheds = [scheds[(li * 2) % len(scheds)], scheds[(li * 2 + 4) % len(scheds)]]
         for i, s in enumerate(scheds):
             out.append({'blocks': blocks, 'flush': list(s) + ['n'], 'depth': depth, 'new': new,
                         'reopen': i % 2 == 0, 'restart_before': i % 3 == 1})
